@@ -69,7 +69,7 @@ SPEC = {
         Job("mempool", "core/mempool", "^TestVerifC18Codec$", shards=(1, 1), timeout=(600, 3000)),
         Job("deferredtx", "deferredtx", "^TestVerifC18Codec$", shards=(1, 1), timeout=(600, 3000)),
     ],
-    "floors": _floors,
+    "floors": dict(_floors, **{"header_binding_mutations": (4000, 80000), "header_binding_shape:both-parts": (40, 800), "header_binding_shape:empty": (25, 500)}),
     "assumptions": [
         "normalisation: nil slice/map == empty slice/map; nil *big.Int == 0; time.Time compared as Unix seconds; error compared by message (nil == \"\")",
         "big.Int values are non-negative (amounts; the encodings carry magnitudes only); a value whose encoder returns an error (observed only for strings that are not valid UTF-8, which protobuf refuses) is counted as encode_refused and not evaluated further",
